@@ -160,7 +160,7 @@ def selftest(prop):
     os.makedirs(scratch, exist_ok=True)
     try:
         for m in MUTATIONS:
-            if m["property"] != prop:
+            if m["property"] != prop or m["expect"] == "none":
                 continue
             repo = os.path.join(scratch, "repo")
             mrun.copy_repo(repo)
